@@ -41,6 +41,11 @@ CHECKS = {
          'Held (apart from the listed known findings) on N generated types x ~25 documents/queries/return literals each x both modes: clear violations were answered 4xx (5xx for return values) without running the body, conforming requests ran with exactly the declared defaults applied to absent fields.',
          'Trusts the reference notion of "clear" conformance in c07.go (extra fields, int-for-float and null for optional fields are never asserted). Three recorded findings are quarantined by signature (body not an object; compiled mode applies no defaults; compiled mode checks no return type).',
          'DESIGN.md §3 C07'),
+ 'C01': ('exploration',
+         'reference-evaluator monitor: generated abstract programs printed to source, run by the tree-walking interpreter and compared with an independent reference evaluator; determinism monitor (three runs per program); directed operator-pair / coercion / scoping / control-flow families',
+         'Held on N generated programs + the directed families: the interpreter outcome (value, GlyphLang error, or status response) equalled the reference evaluator outcome, and repeated runs agreed. Exploration: programs are an unbounded space; the reference evaluator is the input-independent oracle.',
+         'Trusts the reference evaluator (harness/ref/eval.go, rules listed in DESIGN appendix A, a few calibrated on the unchanged tree) and the printer. Constructs outside the generated fragment are not covered; cases the reference does not define (for over objects, == on compound values with floats) are discarded and counted.',
+         'DESIGN.md §3 C01, appendix A'),
 }
 NA = {}
 for p in props:
